@@ -203,3 +203,32 @@ INSTANCES.update({
     "poll_fut6_c": (pollinst(["fut"], cancelable=True, MaxOps=6, MaxPolls=4), "terminal", {}),
     "poll_ss6_c": (pollinst(["str", "snk"], cancelable=True, MaxOps=6, MaxPolls=4), "terminal", {}),
 })
+
+# multi-parent spans in cancelable mode / with cancel (seeded changes S01, S02), local limits with context queries (S07)
+INSTANCES.update({
+    "tree4_c": (seq(TREE + ["child2"], MaxOps=4, MaxSpans=3, MaxRoots=2, MaxTraces=2, MaxCycles=2, cancelable=True), "terminal", {}),
+    "multi_cancel_c": (seq(["root", "child2", "cancel", "drop", "sevent"], MaxOps=5, MaxSpans=3, MaxRoots=2, MaxTraces=2, MaxAtt=1, MaxCycles=2,
+                           cancelable=True), "terminal", {}),
+    "scope_qfull": (seq(["root", "setlp", "dropg", "lenter", "lexit", "levent", "ctxl", "childl", "drop"], QCap=2, MaxOps=6, MaxSpans=2, MaxAtt=2,
+                        MaxLocal=3, MaxScopes=2, MaxCycles=0), "terminal", {}),
+})
+
+# a thread is born (registers its receiver) while the collector sweeps the registry (seeded change S04)
+LIT_SPAWN_SWEEP = dict(
+    threads=[1, 2], born=[1], K=4, MaxCycles=3, menu=["spawn"],
+    prog={1: [S("root", tr=1, smp=True), S("drop", h=101), S("exit")],
+          2: [S("root", tr=2, smp=True), S("drop", h=201), S("exit")]})
+INSTANCES.update({
+    "lit_spawn_sweep": (LIT_SPAWN_SWEEP, "edge", {}),
+    "lit_spawn_sweep_c": (with_(LIT_SPAWN_SWEEP, cancelable=True), "edge", {}),
+})
+
+INSTANCES.update({
+    # one-entry local queues: the limit is hit after a single entry (S07)
+    "scope_q1": (seq(["root", "setlp", "dropg", "lenter", "lexit", "levent", "ctxl", "childl", "drop"], QCap=1, MaxOps=5, MaxSpans=2, MaxAtt=1,
+                     MaxLocal=2, MaxScopes=1, MaxCycles=0), "terminal", {}),
+})
+
+# C10 / C11 / C13: the harness asks for the local context after every call
+for _n in ["scope5", "scope6", "scope_q1", "scope_qfull", "ctx4", "ctx5", "poll_fut_d", "poll_eop", "poll_ss_d"]:
+    INSTANCES[_n] = (dict(INSTANCES[_n][0], probe_ctx=True), INSTANCES[_n][1], INSTANCES[_n][2])
